@@ -73,6 +73,13 @@ class MethodMixin:
         reg(_sys.exit, _exit)
         import os.path
         reg(os.path.join, lambda a, k, n, f: os.path.join(*a) if not any(is_sym(x) for x in a) else self.ufun(f'py_path_join{len(a)}', *([STR] * len(a)), STR)(*[self.zs.lift(x, STR) for x in a]))
+        for nm_ in ('exists', 'isdir', 'isfile', 'islink'):
+            reg(getattr(os.path, nm_), lambda a, k, n, f, nm_=nm_: getattr(os.path, nm_)(*a) if not is_sym(a[0]) else self.ufun('fs_' + nm_, STR, z3.BoolSort())(a[0]))
+        for nm_ in ('basename', 'dirname', 'normpath', 'abspath', 'realpath'):
+            reg(getattr(os.path, nm_), lambda a, k, n, f, nm_=nm_: getattr(os.path, nm_)(*a) if not is_sym(a[0]) else self.ufun('py_path_' + nm_, STR, STR)(a[0]))
+        reg(os.remove, lambda a, k, n, f: self.path.trace.append(('os.remove', a[0])))
+        reg(os.rename, lambda a, k, n, f: self.path.trace.append(('os.rename', a[0], a[1])))
+        reg(os.makedirs, lambda a, k, n, f: self.path.trace.append(('os.makedirs', a[0])))
         reg(os.path.isabs, lambda a, k, n, f: os.path.isabs(a[0]) if not is_sym(a[0]) else self.ufun('py_isabs', STR, z3.BoolSort())(a[0]))
         for nm in ('match', 'fullmatch', 'search'):
             reg(getattr(_re, nm), lambda a, k, n, f, nm=nm: self.m_pattern(a[0] if isinstance(a[0], _re.Pattern) else _re.compile(a[0], *a[2:]), nm, [a[1]], n) if is_sym(a[1]) else getattr(_re, nm)(*a))
